@@ -258,7 +258,22 @@ pub fn run_writer(j: &Value, t: &mut Trace, run_id: usize) -> Option<(Vec<u8>, V
     };
     let mut pos = 0usize;
     let mut failed = false;
-    for n in writes {
+    // "refuse_before": indices of write calls before which the channel writer is handed a call it must refuse (channels of unequal
+    // length); a refused call contributes no PCM, so the finished file must not depend on it
+    let refuse_before: Vec<usize> = j["refuse_before"].as_array().map(|a| a.iter().map(|x| x.as_u64().unwrap() as usize).collect()).unwrap_or_default();
+    for (wi, n) in writes.into_iter().enumerate() {
+        if refuse_before.contains(&wi) && channels >= 2 {
+            if let AnyWriter::Channel(w) = &mut w {
+                let ch = channels as usize;
+                let at = pos.min(pcm.len() / ch);
+                let avail = (pcm.len() / ch - at).min(9);
+                let r = catch(|| {
+                    let cols: Vec<Vec<i32>> = (0..ch).map(|c| (at..at + if c + 1 == ch { avail.saturating_sub(1) } else { avail }).map(|i| pcm[i * ch + c]).collect()).collect();
+                    w.write(&cols).map_err(|e| e.to_string())
+                });
+                t.emit(json!({"ev": "refused", "ret": match &r { Ok(Ok(())) => "ok", Ok(Err(_)) => "err", Err(_) => "panic" }, "offered": avail as i64}));
+            }
+        }
         let n = n.min(total_units - pos);
         let r = catch(|| -> Result<(), String> {
             match &mut w {
@@ -342,9 +357,25 @@ pub fn run_writer(j: &Value, t: &mut Trace, run_id: usize) -> Option<(Vec<u8>, V
     }
     let whole_frames = pos / unit_per_frame;
     let whole: &[i32] = &pcm[..(whole_frames * channels as usize).min(pcm.len())];
+    // which encoded frames hold one constant value per channel (1-based indices into "enc")
+    let mut const_frames: Vec<i64> = vec![];
+    if !light {
+        let ch = channels.max(1) as usize;
+        for (i, e) in events.iter().filter_map(|e| match e {
+            flac_codec::verif::Event::EncodeBegin { samples_before, pcm_frames, .. } => Some((*samples_before as usize, *pcm_frames as usize)),
+            _ => None,
+        }).enumerate() {
+            let (first, n) = e;
+            let a = first * ch;
+            let b = ((first + n) * ch).min(whole.len());
+            if n > 0 && a < b && b - a == n * ch && (0..ch).all(|c| whole[a..b].iter().skip(c).step_by(ch).all(|s| *s == whole[a + c])) {
+                const_frames.push(i as i64 + 1);
+            }
+        }
+    }
     let mut filev = json!({"ev": "file", "len": bytes.len() as i64, "md5": md5_hex(&bytes),
         "desc": describe_file(&bytes, start_offset), "enc": enc, "fin": finb, "branch": branch,
-        "whole_frames": whole_frames as i64, "light": light,
+        "whole_frames": whole_frames as i64, "light": light, "const_frames": const_frames,
         "constant": (0..channels as usize).all(|c| whole.iter().skip(c).step_by(channels.max(1) as usize).all(|s| *s == whole[c])) && !whole.is_empty(),
         "pcm_md5": md5_hex(&samples_to_bytes(whole, bps.clamp(1, 32), false)),
         "len_before": before.len() as i64,
